@@ -324,6 +324,8 @@ class World(object):
         install()
         _drain_loop()
         self.sc = scenario
+        for k, v in (scenario.get("env") or {}).items():
+            os.environ[k] = v          # (Task Resources may be given indirectly as "$NAME")
         self.shared_queue = "asl_workflow_events" + ("-qq" if scenario.get("queue_type") == "quorum" else "")
         _Cur.world = self
         _Cur.clock = self.clock = Clock()
